@@ -205,6 +205,12 @@ class WorkerRun:
         self._attempt_rejected_report()
         if job.checkpointing:
             self.sink.write_ckpt(self.trial_id, self.level)
+        k = job.s.get("report_every")
+        if k and self.level % k != 0 and self.level != self.end_level:
+            # this epoch is trained (and checkpointed, above) but not reported
+            self.level += 1
+            sim.after(job.duration(self.trial_id, self.run, self.level), self._epoch)
+            return
         pr = job.s.get("repeat_level")
         if pr and hfloat(job.table_seed, "repeat", self.trial_id, self.run, self.level) < pr:
             # the script reports twice for the same resource value (say mid-epoch and end-of-epoch), with different metrics
